@@ -98,6 +98,8 @@ def build_harness(log, race=False):
         if race:
             cmd.insert(2, "-race")
             env["CGO_ENABLED"] = "1"
+            env.pop("GOFLAGS", None)
+            env["GOFLAGS"] = "-mod=mod"
         cmd.append(".")
         t0 = time.time()
         rc, out = sh(cmd, cwd=HARNESS, env=env, timeout=900)
